@@ -172,6 +172,10 @@ void Mtz::read_first_bytes(AnyStream& stream) {
   } else {
     header_offset = (int64_t) tmp_header_offset;
   }
+  // the headers come after the 80-byte prologue (20 words) and the data;
+  // the position in bytes, 4 * (header_offset - 1), must be representable
+  if (header_offset < 21 || header_offset > INT64_MAX / 4)
+    fail("Wrong MTZ header offset: " + std::to_string(header_offset));
   stream.skip(60);
 }
 
